@@ -739,7 +739,8 @@ func (d *driver) selftest(active []string) (n int, mismatches map[string]int, er
 
 type evidence struct {
 	runs, nontrivial, distinct int
-	steps, simNS               int64
+	steps                      int64
+	simS                       float64
 	stats                      map[string]int
 	classes                    map[string]int
 	modes                      map[string]int
@@ -750,22 +751,24 @@ type evidence struct {
 	selftestSeeds              int
 	selftestMismatch           int
 	firstIdx, lastIdx          uint64
+	pairs                      map[string]struct{}
 }
 
 func (d *driver) aggregate(aggs []map[string]json.RawMessage, samples []json.RawMessage, active []string) *evidence {
-	ev := &evidence{stats: map[string]int{}, classes: map[string]int{}, modes: map[string]int{}, samples: samples}
+	ev := &evidence{stats: map[string]int{}, classes: map[string]int{}, modes: map[string]int{}, samples: samples, pairs: map[string]struct{}{}}
 	digests := map[uint64]struct{}{}
 	for _, a := range aggs {
 		var x struct {
 			Runs, Nontrivial, Harness int
 			Steps                     int64
-			SimNS                     int64 `json:"sim_ns"`
+			SimS                      float64 `json:"sim_s"`
 			Stats, Classes            map[string]int
 			DigestFile                string `json:"digest_file"`
 			HarnessMsg                string `json:"harness_msg"`
 			Mode                      string
 			Race                      bool
 			LastIdx                   uint64 `json:"last_idx"`
+			Pairs                     []string
 		}
 		b, _ := json.Marshal(a)
 		json.Unmarshal(b, &x)
@@ -776,7 +779,7 @@ func (d *driver) aggregate(aggs []map[string]json.RawMessage, samples []json.Raw
 			ev.harnessMsg = x.HarnessMsg
 		}
 		ev.steps += x.Steps
-		ev.simNS += x.SimNS
+		ev.simS += x.SimS
 		for k, v := range x.Stats {
 			ev.stats[k] += v
 		}
@@ -788,6 +791,9 @@ func (d *driver) aggregate(aggs []map[string]json.RawMessage, samples []json.Raw
 			m += "+race"
 		}
 		ev.modes[m] += x.Runs
+		for _, p := range x.Pairs {
+			ev.pairs[m+": "+p] = struct{}{}
+		}
 		if x.LastIdx > ev.lastIdx {
 			ev.lastIdx = x.LastIdx
 		}
@@ -839,7 +845,7 @@ func (d *driver) writeEvidence(ev *evidence, violations int) {
 		"nontrivial_runs":     ev.nontrivial,
 		"runs_per_hour":       int(float64(ev.runs) / wall * 3600),
 		"seeds":               map[string]any{"driver_seed": d.seed, "derivation": "run seed i = splitmix64(driver_seed, i)", "first_index": 0, "last_index": ev.lastIdx},
-		"sim_time_seconds":    float64(ev.simNS) / 1e9,
+		"sim_time_seconds":    ev.simS,
 		"steps":               ev.steps,
 		"faults_fired":        group("fault."),
 		"probes":              group("probe."),
@@ -851,6 +857,19 @@ func (d *driver) writeEvidence(ev *evidence, violations int) {
 		"determinism_selftest": map[string]any{"runs_compared": ev.selftestSeeds, "mismatches": ev.selftestMismatch,
 			"how": "same seeds in separate processes per build at GOMAXPROCS 1, 4 and 16; trace digests and verdicts compared"},
 		"harness_race_reports_ignored": ev.raceNoise,
+	}
+	if len(ev.pairs) > 0 {
+		var ps []string
+		for p := range ev.pairs {
+			ps = append(ps, p)
+		}
+		sort.Strings(ps)
+		cov["site_pairs_covered"] = len(ps)
+		if len(ps) > 40 {
+			ps = ps[:40]
+		}
+		cov["site_pairs_sample"] = ps
+		cov["site_pairs_rule"] = "distinct (scheduling site of one task -> next scheduling site of another task) pairs seen, per build; sites are seam calls in the unmodified tree and additionally every lock/unlock/spawn/WaitGroup/channel/select site in the instrumented copy"
 	}
 	if extra := group("cover."); len(extra) > 0 {
 		cov["coverage_counters"] = extra
